@@ -51,6 +51,9 @@ func (e *Engine) modelCall(st *State, fn *ssa.Function, args []Val, site ssa.Ins
 	if fn.Origin() != nil {
 		full = fn.Origin().String()
 	}
+	if e.rangeModel(st, fn, args, site, k) {
+		return true
+	}
 	switch {
 	case strings.HasPrefix(full, "(*sync/atomic."):
 		i := strings.Index(full, ").")
